@@ -25,7 +25,7 @@ type ptrKey struct {
 func newDeepCopier() *deepCopier {
 	return &deepCopier{
 		ptrMap: map[ptrKey]reflect.Value{},
-		mapMap: map[uintptr]reflect.Value{},
+		mapMap: map[ptrKey]reflect.Value{},
 	}
 }
 
@@ -34,9 +34,9 @@ type deepCopier struct {
 	// and splitting pointers to the same object.
 	ptrMap map[ptrKey]reflect.Value
 
-	// map from input map-pointer to output-map to handle
+	// map from input map-pointer (and map type) to output-map to handle
 	// reference cycles.
-	mapMap map[uintptr]reflect.Value
+	mapMap map[ptrKey]reflect.Value
 }
 
 func (d *deepCopier) deepCopyValue(v reflect.Value) reflect.Value {
@@ -200,14 +200,17 @@ func (d *deepCopier) deepCopyMap(in, out reflect.Value) {
 	if in.IsNil() {
 		return
 	}
-	if mv, ok := d.mapMap[in.Pointer()]; ok && out.CanSet() {
+	// The same map may be held under several named map types; only a copy
+	// of the same type can be assigned.
+	mKey := ptrKey{ptr: in.Pointer(), typ: in.Type()}
+	if mv, ok := d.mapMap[mKey]; ok && out.CanSet() {
 		// We've seen this map before, let's take advantage of it.
 		out.Set(mv)
 		return
 	}
 	// Mark this map's backing pointer as handled, so back-references get
 	// handled properly if they occur in values.
-	d.mapMap[in.Pointer()] = out
+	d.mapMap[mKey] = out
 
 	if (out.IsNil() || out.Pointer() == in.Pointer()) && out.CanSet() {
 		out.Set(reflect.MakeMapWithSize(in.Type(), in.Len()))
